@@ -56,6 +56,23 @@ Theorem C06_rebuilt_iff : forall l st g, lay_wf l -> proper l st ->
   (load_index l st g = hydrate_from (s_recs g) 0 /\ closed_open l st = false) \/ (st = FComplete /\ load_index l st g = s_idx g).
 Proof. exact rebuilt_iff. Qed.
 
+(** dying inside the rollover right after the next segment's directory was created (no events file in it yet):
+    the directory changes neither the set of sealed segments nor the live segment, and the live segment is never
+    opened as a sealed one *)
+Theorem C06_interrupted_rollover_dir : forall dirs j,
+  scan_sealed (dirs ++ [(j, false)]) = scan_sealed dirs /\ live_of (dirs ++ [(j, false)]) = live_of dirs.
+Proof. exact scan_ignores_empty_dirs. Qed.
+
+Theorem C06_live_not_sealed : forall dirs, ~ In (live_of dirs) (scan_sealed dirs).
+Proof. exact scan_live_not_sealed. Qed.
+
+(** before the repair the newest directory counted as the live segment even without an events file: the real live
+    segment (1) was opened as a sealed one -- its index files are empty, so the open failed *)
+Theorem C06_v0_dir_refuted :
+  scan_sealed_v0 [(0, true); (1, true); (2, false)] = [0; 1] /\ live_of [(0, true); (1, true); (2, false)] = 1 /\
+  scan_sealed [(0, true); (1, true); (2, false)] = [0].
+Proof. exact scan_v0_live_sealed. Qed.
+
 (** the code BEFORE the repair, on a sealed segment of four single-event transactions (replayed on the real
     Database: corpus/C06/*.case):
     (1) an index file shorter than its header (e.g. empty, as created at the rollover): the open fails; *)
@@ -119,6 +136,9 @@ Print Assumptions C06_crash_step.
 Print Assumptions C06_reopen_step.
 Print Assumptions C06_validation_exact.
 Print Assumptions C06_rebuilt_iff.
+Print Assumptions C06_interrupted_rollover_dir.
+Print Assumptions C06_live_not_sealed.
+Print Assumptions C06_v0_dir_refuted.
 Print Assumptions C06_v0_open_refuted.
 Print Assumptions C06_v0_missing_refuted.
 Print Assumptions C06_v0_partial_refuted.
